@@ -38,7 +38,7 @@ TRUSTED = [
     "order depends on id() among ties and belongs to C09/C14)",
 ]
 ASSUMPTIONS = [
-    "CAS inside wf_xmib: text sofas only (no sofaURI / sofaArray), slots hold values of the declared kind, arrays have a "
+    "CAS inside wf_xmib: slots hold values of the declared kind, arrays have a "
     "list in `elements`, inline lists are tail-acyclic, annotations carry the sofa of a view of this CAS and valid "
     "offsets, ids differ from sofa ids and from 0, user features are not called sofa/xmiID/elements/head/tail",
     "ranges that are user subtypes of primitives other than uima.cas.String are outside the scope",
@@ -66,8 +66,7 @@ def _load():
 
 def run_impl(cassis, sc):
     xc.STATE["cassis"] = cassis
-    ts = scen.build_ts(cassis, sc["ts"])
-    cas, _views, objs = scen.build_cas(cassis, ts, sc["cas"])
+    _ts, cas, _views, objs = xc.build(cassis, sc)
     sofas = [[s.xmiID, s.sofaNum] for s in cas.sofas]
     xmi = cas.to_xmi()
     doc = xmlabs.parse(xmi)
